@@ -187,15 +187,44 @@ def fn_replay(ctx, path):
     return True
 
 
+def fault_pass(ctx):
+    """Fault enumeration: every API call index of the failure-free run x fault kind (quick: writes x {rejected, stop after};
+    thorough: all calls x {rejected, answer lost, stop before, stop after} plus sampled pairs), failure-free convergence afterwards."""
+    spec = plan.FAULTS.get(ctx.pid)
+    if not spec:
+        return True
+    trace = os.path.join(ctx.work, "faults.ndjson")
+    args = ["faults", "-in", spec[ctx.tier], "-out", trace, "-tier", ctx.tier, "-seed", str(ctx.seed), "-n", str(spec["pairs"] if ctx.tier == "thorough" else 0)]
+    out, dt = ctx.sim(args, timeout=3000)
+    info = json.loads(out.strip().splitlines()[-1])
+    ctx.cov["passes"].append({"pass": "fault-enumeration", "wall_s": round(dt, 1), **info})
+    ctx.cov["evaluations"] += info["runs"]
+    ctx.cov["traces_validated_against_impl"] += info["runs"]
+    ctx.cov["fault_runs"] = info["runs"]
+    ctx.cov["api_calls_in_failure_free_runs"] = info["api_calls"]
+    with open(trace) as f:
+        labels = []
+        for line in f:
+            if line.startswith('{"ev":"faultEnd"'):
+                labels.append(json.loads(line)["args"]["label"])
+                if len(labels) >= 5:
+                    break
+    ctx.cov["samples"] += [{"faulted_run": x} for x in labels] + vcheck.sample_events(trace, 2)
+    return ctx.judge_traces(trace, spec["props"], spec["invs"], label="faults")
+
+
 def run_property(ctx):
     ok = trace_pass(ctx)
+    if ok:
+        ok = fault_pass(ctx)
     if ok:
         ok = fn_pass(ctx)
     if ok:
         ok = b3_pass(ctx)
     if ok:
         design_pass(ctx)
-    ctx.write_evidence("model_checking", rule=plan.RULES["default"])
+    level = "fault_enumeration" if ctx.pid == "C11" else "model_checking"
+    ctx.write_evidence(level, rule=plan.RULES["default"])
     return ok
 
 
